@@ -26,6 +26,9 @@ structure Mem where
   index : Option Reg
   scale : Int
   offset : Option Int      -- value of an immediate offset; none: absent (or not an immediate)
+  /-- a SYMBOLIC displacement (`foo(%rip)`, `[x2, #:lo12:foo]`: an `IdentifierOperand`): the canonical text of the
+      fields the repaired `is_memload` compares (name, constant offset, relocation); `offset` is then `none` -/
+  sym : Option Txt := none
   pre : Bool
   post : Bool
   eqKey : Txt              -- canonical text of all fields `MemoryOperand.__eq__` compares
@@ -131,12 +134,21 @@ def updateState (s : RegState) (changes : List (Txt × Option Change)) : RegStat
 
 def fullName (r : Reg) : Txt := r.pre ++ r.name
 
+/-- the displacement part of `is_memload` (repaired): load displacement minus store displacement when both are
+    numbers (an absent one counts 0); a symbol is an unknown constant, comparable only with the very same symbol
+    (difference 0); a symbol against a number / nothing, or two different symbols: not provably equal (`none`) -/
+def dispDelta (st ld : Mem) : Option Int :=
+  match st.sym, ld.sym with
+  | none, none => some ((ld.offset.getD 0) - (st.offset.getD 0))
+  | some a, some b => if a == b then some 0 else none
+  | _, _ => none
+
 /-- `is_memload(mem, instruction_form, register_changes)` -/
 def isMemload (st : Mem) (i : Ins) (s : RegState) : Bool :=
   (i.src ++ i.srcDst).any fun o =>
     match o with
     | .mem ld =>
-      let a0 : Int := (ld.offset.getD 0) - (st.offset.getD 0)
+      let a0 : Option Int := dispDelta st ld
       -- base
       let rb : Option Int :=
         match st.base, ld.base with
@@ -160,9 +172,9 @@ def isMemload (st : Mem) (i : Ins) (s : RegState) : Bool :=
             else if fullName si == fullName li then some 0 else none)
         | none, none => some 0
         | _, _ => none
-      match rb, ri with
-      | some b, some x => a0 + b + x == 0
-      | _, _ => false
+      match a0, rb, ri with
+      | some a0, some b, some x => a0 + b + x == 0
+      | _, _, _ => false
     | _ => false
 
 /-- `is_memstore(mem, instruction_form)`: a destination memory operand equal to `mem` -/
@@ -198,13 +210,17 @@ def scanMem (isa : Isa) (m : Mem) (s : RegState) : List Ins → List (Nat × Tag
       if isMemstore m i then here
       else here ++ scanMem isa m (updateState (updateState s i.changes) i.changesPost) rest
 
+/-- the tracked state the scan for a memory destination of `p` starts with (repaired `find_depending`): the changes
+    `p` itself reports, and then ALSO its own post-index write-back (`str x1, [x2], #8` leaves `x2 + 8` in `x2`) -/
+def startState (p : Ins) : RegState := updateState (updateState [] p.changes) p.changesPost
+
 /-- all emissions of one producer, in the order the code yields them -/
 def findDepending (isa : Isa) (flagDeps : Bool) (p : Ins) (rest : List Ins) : List (Nat × Tag) :=
   (p.dst ++ p.srcDst).flatMap fun d =>
     match d with
     | .reg r => scanTarget isa (.reg r) (if r.preIdx || r.postIdx then .pIndexed else .plain) rest
     | .flag n => if flagDeps then scanTarget isa (.flag n) .plain rest else []
-    | .mem m => scanMem isa m (updateState [] p.changes) rest
+    | .mem m => scanMem isa m (startState p) rest
     | .other => []
 
 /-! ### graph -/
